@@ -9,7 +9,9 @@ Open Scope Z_scope.
 Inductive mode := MWait | MCancel | MStart.
 Inductive outc := OSuccess | OError | OCancelled.
 
-Record ocfg := { o_mode : mode; o_guard : Z }.      (* guard time in microseconds, 0 = none *)
+Record ocfg := { o_mode : mode; o_guard : Z;         (* guard time in microseconds, 0 = none *)
+                 o_selfcancel : list nat }.          (* puts whose coroutine ends with a CancelledError of
+                                                        its own (reported as cancelled in every mode) *)
 
 Inductive phase := PhCoro | PhGuard (until : Z).   (* guard 0: until = end of the coroutine *)
 Record arun := { a_id : nat; a_phase : phase }.
@@ -122,9 +124,11 @@ Definition ostep_do (c : ocfg) (s : ostate) (x : ostep) : option ostate :=
       else None
   | OEnd t id r =>
       if (onow s <=? t) && in_coro id s && no_owed s then
-        (* a run is cancelled only in cancel mode and only because a newer put is waiting *)
+        (* a run is cancelled only in cancel mode and only because a newer put is waiting - or
+           because its own coroutine raised the CancelledError *)
         if match r with
-           | OCancelled => match o_mode c with
+           | OCancelled => memn id (o_selfcancel c) ||
+                           match o_mode c with
                            | MCancel => match q s with [] => false | _ => true end
                            | _ => false end
            | _ => true end then
